@@ -7,17 +7,30 @@
    parameters.
 
    PROVED
-     emit side      emit_fn_shape (the emitted function, for every in-guard description), reparse_* (what the
-                    unparse / re-parse step does to it);
-     codec          C03_kind, C03_kwargs, C03_default_alignment, C03_names_order, C03_annotation_codec,
-                    C03_default_codec (per value class: None, bool, int >= 0, int < 0, float, str), C03_param_codec,
-                    C03_return_codec;
-     whole          C03_refuted (vm_compute witness), C03_partial (guard + doc_agrees => the composed model succeeds
-                    and hands back the same interface and kind), C03_nonvacuous, class-free corollaries
-                    C03_typed_defaults_inline, C03_return_only.
-   NOT PROVED (stated as hypotheses, evaluated by the oracle on every in-guard point)
-     doc_agrees for the text to_docstring produces (the ReST round trip of the indented text);
-     that reparse_stmt is what CPython does (model; correspondence family c03). *)
+     outside the guard (every description the emitter accepts):
+       emit_fn_inv / reparse_layout        the emitted argument list has one of two layouts; unparse / re-parse keeps
+                                           layout, names and lengths;
+       C03_kind_lemma                      static / self / cls is read back by every round trip that succeeds;
+       C03_names_order_lemma               names and order, from C06Facts.map_outcome_arg_names + ParseSigFacts.
+                                           parse_function_names: the IR's parameters in order, then the ** parameter iff
+                                           documented;
+       C03_default_alignment_lemma         positional vs keyword-only: the k-th parameter is paired with the k-th default;
+     per entry:
+       C03_annotation_codec_lemma          inline annotation of a canonical type: fixed point, prints back as the string;
+       infer_default_codec / C03_default_codec_lemma   defaults per value class (None, bool, int >= 0, int < 0, float, str);
+       param_entry_codec                   one parameter: signature entry + docstring entry -> merged -> _set_name_and_type;
+       kwargs_entry_codec                  the ** parameter;
+       returns_round_trip                  the return entry (annotation, generated return, _interpolate_return);
+     whole:
+       C03_refuted_lemma (vm_compute witness), C03_partial_lemma (guard + doc_agrees => the composed model succeeds -
+       nothing raises - and hands back the same interface and kind), C03_nonvacuous_lemma, C03_class_witnesses_lemma,
+       class-free corollaries C03_scalar_guard / C03_scalar_lemma, C03_return_only_guard / C03_return_only_lemma.
+   NOT PROVED (hypotheses of the theorems, evaluated by the oracle on every in-guard point)
+     doc_agrees for the text to_docstring produces (the ReST round trip of the indented, possibly wrapped text: C01 proves
+     it for emit.docstring's text only);
+     that reparse_stmt is what CPython does (a model; correspondence family c03);
+     the prose conditions of the guard that concern the docstring layer only (prose_safe, the summary token test, the
+     default-sentence test) are not used by the proofs: they make the classifier exact on the real code. *)
 From Coq Require Import List Ascii Bool Arith ZArith Lia Permutation.
 From Coq Require String.
 Import String.StringSyntax.
@@ -2091,6 +2104,43 @@ Lemma C03_nonvacuous_lemma :
   guard_C03 nv3_opts nv3_ir = true /\ doc_agrees nv3_opts nv3_ir nv3_doc = true
   /\ List.length (ir_params nv3_ir) = 7 /\ C03_at_b nv3_opts nv3_ir (L "text") nv3_doc = true.
 Proof. vm_compute. repeat split; reflexivity. Qed.
+
+(* one minimal witness per finding class (the same descriptions fail on the real code: harness/prop_C03.py) *)
+Definition wB : fopts := mkFO (L "static") true true 1 true false true [].
+Definition wB_edd : fopts := mkFO (L "static") true true 1 true true true [].
+Definition wB_doctyp : fopts := mkFO (L "static") false true 1 true false true [].
+Definition w_ir1 (n : String.string) (g : gparam) : ir :=
+  mkIR FNone (Has (L "static")) (Has (L "Summary.")) [(L n, g)] FNone None.
+Arguments w_ir1 n%string_scope g.
+Definition w_irR (g : gparam) : ir := mkIR FNone (Has (L "static")) (Has (L "Summary.")) [] (Has g) None.
+Definition dI (z : Z) : option dval := Some (DV (VInt z)).
+Definition dS (s : String.string) : option dval := Some (DV (VStr (L s))).
+Arguments dS s%string_scope.
+
+Definition class_witnesses : list (fopts * ir * c03_class) :=
+  [ (wB_edd, w_ir1 "x" (mkG (Has (L "the x.")) (Has (L "int")) (dI 5)), K3_default_sentence_kept);
+    (wB, w_ir1 "x" (mkG (Has (L " the x.")) (Has (L "int")) (dI 5)), K3_prose_not_docstring_safe);
+    (wB, w_ir1 "x" (mkG (Has (L "Optional thing.")) (Has (L "int")) (dI 5)), K3_prose_starts_optional);
+    (wB, w_ir1 "kwargs" (mkG Missing (Has (L "Optional[dict]")) (Some (DV VNone))), K3_kwargs_undocumented);
+    (wB, w_ir1 "kwargs" (mkG (Has (L "the kw.")) (Has (L "dict")) (Some (DV VNone))), K3_kwargs_shape);
+    (wB, w_ir1 "x" (mkG (Has (L "the x.")) (Has (L "int")) None), K3_no_default_becomes_none);
+    (wB, w_ir1 "x" (mkG (Has (L "the x.")) Missing (dI 5)), K3_untyped_acquires_type);
+    (wB, w_ir1 "x" (mkG (Has (L "the x.")) (Has (L "Optional[ int ]")) (dI 5)), K3_type_not_canonical);
+    (wB_doctyp, w_ir1 "x" (mkG Missing (Has (L "Optional[int]")) (Some (DV VNone))), K3_type_lost_without_prose);
+    (wB, w_ir1 "x" (mkG (Has (L "the x.")) (Has (L "np.ndarray")) (dS "```np.zeros(3)```")), K3_code_default_drops_type);
+    (wB, w_ir1 "x" (mkG (Has (L "the x.")) (Has (L "str")) (dS "'a'")), K3_str_default_requoted);
+    (wB_doctyp, w_irR (mkG Missing (Has (L "int")) None), K3_return_vanishes);
+    (wB, w_irR (mkG (Has (L "the r.")) (Has (L "List[int]")) (dS "```5```")), K3_return_default_not_code);
+    (wB, w_irR (mkG (Has (L "the r.")) (Has (L "int")) (dS "```[1, 2]```")), K3_return_type_dropped) ].
+
+Definition class_eqb (a b : c03_class) : bool := str_eqb (c03_class_name a) (c03_class_name b).
+
+Lemma C03_class_witnesses_lemma :
+  forallb (fun w => match w with
+                    | (o, i, k) => C03_domain o i
+                                   && match finding_class_C03 o i with Some k' => class_eqb k k' | None => false end
+                    end) class_witnesses = true.
+Proof. vm_compute. reflexivity. Qed.
 
 (* ================================================================== *)
 (* Class-free corollaries *)
